@@ -158,12 +158,14 @@ impl PathParser {
     }
 
     fn process_instruction(&mut self) -> Result<()> {
+        let mut new_command = false;
         if self.command.is_none() || self.tokens.at_command()? {
             // "The command letter can be eliminated on subsequent commands if the same
             // command is used multiple times in a row (e.g., you can drop the second
             // "L" in "M 100 200 L 200 100 L -100 -200" and use "M 100 200 L 200 100
             // -100 -200" instead)."
             self.command = Some(self.tokens.read_command()?);
+            new_command = true;
         }
 
         match self.command.expect("Command should be already set") {
@@ -257,6 +259,11 @@ impl PathParser {
             _ => Err(SvgdxError::InvalidData(
                 "Unknown path data instruction".to_string(),
             ))?,
+        }
+        // an explicit moveto starts a new sub-path: that is where closepath returns to
+        // (further coordinate pairs of the same moveto are implicit lineto commands)
+        if new_command && matches!(self.command, Some('M' | 'm')) {
+            self.start_pos = self.position;
         }
         Ok(())
     }
